@@ -130,7 +130,7 @@ class World:
         Pure function of the model."""
         kind = ev[0]
         if kind == 'type':
-            _, name, ref, quantum = ev
+            _, name, ref, quantum = ev[:4]
             if ref is not None:
                 if not isinstance(ref, str) or ref == '':
                     return 'unspecified', 'empty/non-string ref symbol'
@@ -139,6 +139,9 @@ class World:
             return 'ok', None
         if kind == 'dtype':
             _, name, definition, ref, quantum = ev
+            if any(tn not in self.tm for tn, _ in definition):
+                # numbers or units in a type definition
+                return 'reject', 'invalid definition'
             dim = ()
             for tn, exp in definition:
                 dim = O.dim_mul(dim, O.dim_pow(self.tm[tn].dim, exp))
@@ -226,7 +229,11 @@ class World:
         self.script.append(ev)
         try:
             if kind == 'type':
-                _, name, ref, quantum = ev
+                # optional 5th element: a concrete quantity type to subclass
+                # (the new type is a base type of its own dimension)
+                _, name, ref, quantum = ev[:4]
+                bases = (self.types[ev[4]],) if len(ev) > 4 else \
+                    (Q.Quantity,)
                 self.attempted_types.append(name)
                 if ref is not None:
                     self.attempted_symbols.append(ref)
@@ -235,7 +242,7 @@ class World:
                     kw['ref_unit_symbol'] = ref
                 if quantum is not None:
                     kw['quantum'] = O.dec(quantum)
-                cls = Q.QuantityMeta(name, (Q.Quantity,), {}, **kw)
+                cls = Q.QuantityMeta(name.split('#')[0], bases, {}, **kw)
                 self._model_type(name, ((name, 1),), ref, quantum, True, None)
                 self.types[name] = cls
                 if ref is not None:
@@ -245,8 +252,10 @@ class World:
                 _, name, definition, ref, quantum = ev
                 self.attempted_types.append(name)
                 from quantity.term import Term
-                define_as = Term([(self.types[tn], e)
-                                  for tn, e in definition])
+                define_as = Term([
+                    (self.types[tn] if tn in self.types else
+                     O.dec(tn) if is_num_code(tn) else self.units[tn[2:]], e)
+                    for tn, e in definition])
                 kw = {'define_as': define_as}
                 if ref is not None:
                     kw['ref_unit_symbol'] = ref
